@@ -117,6 +117,8 @@ class Interner(object):
         if b is None:
             return ""
         b = bytes(b)
+        if b == b"":
+            return ""                   # the empty value is its own token (the specification writes it "")
         t = self.b2t.get(b)
         if t is None:
             t = "%s%d" % (hint, len(self.b2t) + 1)
@@ -129,6 +131,8 @@ class Interner(object):
         self.t2b[t] = bytes(b)
 
     def val(self, t):
+        if t == "":
+            return b""
         return self.t2b[t]
 
 
